@@ -42,10 +42,13 @@ def param_slot(fn, index):
     p = fn.params[index] if index < len(fn.params) else None
     if p is None:
         raise AnalysisBroken("function %s has no parameter #%d" % (fn.name, index))
+    names = {p}
     for i in fn.blocks[0].insts:
+        if i.op in ("zext", "sext", "trunc", "bitcast") and i.ops and i.ops[0] in names:
+            names.add(i.res)          # a bool parameter is widened (`zext i1 %p to i8`) before it is spilled
         if i.op == "store":
             v, ptr = parse_store(i)
-            if v == p:
+            if v in names:
                 return ptr
     raise AnalysisBroken("parameter #%d of %s is not spilled to a slot" % (index, fn.name))
 
